@@ -22,6 +22,8 @@ BOUNDED = {
     "C04-nested-loop-lifetime": ([("C04", "C01")], "a value read inside an inner loop is kept live only for the inner loop; a temporary of the outer loop body reuses its register", "effect #"),
     "C04-transitive-blocking": ([("C04", "C01")], "register blocking is not transitive through a caller that owns no registers: main -> f -> g, g overwrites a register live in main", "effect #"),
     "C04-inlined-return-register": ([("C04", "C01"), ("C02", "C02")], "the result register of a value-returning function that is called only from other functions is allocated in the main scope with a source-line lifetime (its def .. its last call); a main-scope temporary that is live across the inlined call chain shares it: 'db.Setting = d0.On + f()' with f returning g() + t adds g's result to itself", "effect #"),
+    "C04-device-id-captured": ([("C04", "C04")], "a device object built from a register-held id (vent = Device(i)) keeps using the register after the lifetime of i ended: 't = d0.Setting * 2' is given the same register and 'vent.On = ..' addresses the wrong device", "share a register"),
+    "C13-alias-shadows-local": ([("C13", "C09"), ("C09", "C09")], "'from library import a as t' while a function of library a has a local variable t: the local resolves to the module object and its repr is emitted as an operand", ""),
     "C06-forlist-call": ([("C06", "C06")], "a call inside the body of 'for .. in [list]' overwrites ra of the loop's own jal/j ra protocol", "return at line"),
     "C06-tailcall-after-call": ([("C06", "C06"), ("C02", "C02")], "tail_call_optimization: a function with a call followed by a tail call saves no return address; the inner call clobbers ra", "return at line"),
     "C06-tailcall-result-kind": ([("C06", "C06")], "tail_call_optimization + push/pop: a void function tail-calling a value-returning one leaves the pushed result on the stack", "stack pointer at top-level yields drifts"),
